@@ -212,11 +212,13 @@ fn run_case(cfg: &Value, case: &Value, ln: usize) -> (Vec<Mismatch>, Value, Vec<
                             "sent".to_string()
                         }
                         "try" | "block0" | "blockInf" => {
+                            set_current_call_timeout(match op.as_str() { "block0" => Some(Duration::ZERO), "blockInf" => Some(LONG), _ => None });
                             let r = match op.as_str() {
                                 "try" => sender.try_send(item),
                                 "block0" => emit_batcher::sync::blocking_send(&*sender, item, Duration::ZERO),
                                 _ => emit_batcher::sync::blocking_send(&*sender, item, LONG),
                             };
+                            set_current_call_timeout(None);
                             match r {
                                 Ok(()) => "ok".to_string(),
                                 Err(e) => match e.into_retryable() {
@@ -300,7 +302,9 @@ fn run_case(cfg: &Value, case: &Value, ln: usize) -> (Vec<Mismatch>, Value, Vec<
                 _ => {
                     // blocking_flush, plus an independent observer of when the flush fires
                     let t = if op == "flush0" { Duration::ZERO } else { LONG };
+                    set_current_call_timeout(Some(t));
                     let r = emit_batcher::sync::blocking_flush(&*sender, t);
+                    set_current_call_timeout(None);
                     rec.log(json!({"ev": "FlushRet", "w": name, "ret": r}));
                     obs.lock().unwrap().fret.insert(name.clone(), if r { "true" } else { "false" }.to_string());
                 }
